@@ -10,10 +10,13 @@
 #![allow(clippy::all)]
 
 extern crate rustc_abi;
+extern crate rustc_data_structures;
 extern crate rustc_driver;
 extern crate rustc_hir;
 extern crate rustc_interface;
 extern crate rustc_middle;
+extern crate rustc_mir_transform;
+extern crate rustc_session;
 extern crate rustc_span;
 
 use rustc_driver::{Callbacks, Compilation};
@@ -202,6 +205,9 @@ impl<'tcx> Cx<'tcx> {
         o.s("v", &format!("{}", c.const_));
         if let MirConst::Unevaluated(u, _) = c.const_ {
             o.s("item", &self.path(u.def));
+            if let Some(p) = u.promoted {
+                o.n("promoted", p.as_usize() as i128);
+            }
         }
         if ty.is_integral() || ty.is_bool() || ty.is_char() {
             if let Some(si) = c.const_.try_eval_scalar_int(tcx, env) {
@@ -590,10 +596,36 @@ impl<'tcx> Cx<'tcx> {
     }
 
     fn body_facts(&self, def: LocalDefId, body: &Body<'tcx>, source: &str) -> String {
+        self.body_facts2(def, body, source, None)
+    }
+
+    fn body_facts2(&self, def: LocalDefId, body: &Body<'tcx>, source: &str, promoted: Option<usize>) -> String {
         let tcx = self.tcx;
         let did = def.to_def_id();
         let env = TypingEnv::post_analysis(tcx, did);
         let mut o = Obj::new();
+        if let Some(pi) = promoted {
+            o.s("key", &format!("{}::promoted[{}]", self.path(did), pi));
+            o.s("kind", "Promoted");
+            o.s("mir", source);
+            o.s("promoted_of", &self.path(did));
+            let mut locals = vec![];
+            for ld in body.local_decls.iter() {
+                let mut l = Obj::new();
+                l.s("ty", &format!("{}", ld.ty));
+                locals.push(l.done());
+            }
+            o.raw("locals", &jlist(&locals));
+            o.n("arg_count", 0);
+            let (file, line, _m) = self.span_info(body.span);
+            o.s("file", &file).n("line", line as i128);
+            let mut blocks = vec![];
+            for (i, bb) in body.basic_blocks.iter().enumerate() {
+                blocks.push(self.block(body, env, i, bb));
+            }
+            o.raw("blocks", &jlist(&blocks));
+            return o.done();
+        }
         o.s("key", &self.path(did));
         o.s("kind", &format!("{:?}", tcx.def_kind(did)));
         o.s("mir", source);
@@ -792,6 +824,19 @@ impl<'tcx> Cx<'tcx> {
             let dk = tcx.def_kind(did);
             match dk {
                 DefKind::Fn | DefKind::AssocFn | DefKind::Closure => {
+                    for (pi, pb) in tcx.promoted_mir(did).iter().enumerate() {
+                        bodies.push(self.body_facts2(def, pb, "promoted", Some(pi)));
+                    }
+                    if tcx.is_coroutine(did) {
+                        // force the (overridden) query so that the snapshot exists
+                        let _ = tcx.mir_drops_elaborated_and_const_checked(def);
+                        let key = self.path(did);
+                        let snaps = SNAPSHOTS.lock().unwrap();
+                        if let Some((_, v)) = snaps.iter().find(|(k, _)| *k == key) {
+                            bodies.push(v.clone());
+                            continue;
+                        }
+                    }
                     let st = tcx.mir_drops_elaborated_and_const_checked(def);
                     if !st.is_stolen() {
                         let b = st.borrow();
@@ -837,6 +882,13 @@ struct FactsCallbacks {
 }
 
 impl Callbacks for FactsCallbacks {
+    fn config(&mut self, config: &mut rustc_interface::interface::Config) {
+        config.override_queries = Some(|_sess, providers| {
+            let _ = ORIG_PROVIDER.set(providers.queries.mir_drops_elaborated_and_const_checked);
+            providers.queries.mir_drops_elaborated_and_const_checked = my_mir_drops_elaborated;
+        });
+    }
+
     fn after_analysis<'tcx>(&mut self, _c: &rustc_interface::interface::Compiler, tcx: TyCtxt<'tcx>) -> Compilation {
         let cx = Cx { tcx };
         let facts = with_resolve_crate_name!(with_no_trimmed_paths!(with_no_visible_paths!(cx.run())));
@@ -862,6 +914,47 @@ impl Callbacks for FactsCallbacks {
 
 struct Plain;
 impl Callbacks for Plain {}
+
+// ---- pre-state-machine snapshots of coroutine bodies ---------------------------------------
+// `mir_drops_elaborated_and_const_checked` also runs the coroutine StateTransform.  For async
+// bodies we therefore clone `mir_promoted` just before the original provider steals it, run the
+// same public pipeline on the clone with `coroutine = None` (which makes StateTransform a no-op)
+// and keep the resulting facts (a String) until after_analysis.
+static ORIG_PROVIDER: std::sync::OnceLock<
+    for<'tcx> fn(TyCtxt<'tcx>, LocalDefId) -> &'tcx rustc_data_structures::steal::Steal<Body<'tcx>>,
+> = std::sync::OnceLock::new();
+static SNAPSHOTS: std::sync::Mutex<Vec<(String, String)>> = std::sync::Mutex::new(Vec::new());
+
+fn my_mir_drops_elaborated<'tcx>(
+    tcx: TyCtxt<'tcx>,
+    def: LocalDefId,
+) -> &'tcx rustc_data_structures::steal::Steal<Body<'tcx>> {
+    if tcx.is_coroutine(def.to_def_id()) && std::env::var("VERIF_FACTS_DIR").is_ok() {
+        // prerequisites the original provider forces before stealing
+        tcx.ensure_done().mir_coroutine_witnesses(def);
+        if !tcx.is_synthetic_mir(def) {
+            let _ = tcx.mir_borrowck(tcx.typeck_root_def_id_local(def));
+        }
+        tcx.ensure_done().check_liveness(def);
+        let (promoted, _) = tcx.mir_promoted(def);
+        if !promoted.is_stolen() {
+            let mut snap = promoted.borrow().clone();
+            snap.coroutine = None;
+            let r = std::panic::catch_unwind(std::panic::AssertUnwindSafe(|| {
+                rustc_mir_transform::run_analysis_to_runtime_passes(tcx, &mut snap);
+                let cx = Cx { tcx };
+                with_resolve_crate_name!(with_no_trimmed_paths!(with_no_visible_paths!((
+                    cx.path(def.to_def_id()),
+                    cx.body_facts(def, &snap, "pre_state_transform")
+                ))))
+            }));
+            if let Ok((k, v)) = r {
+                SNAPSHOTS.lock().unwrap().push((k, v));
+            }
+        }
+    }
+    (ORIG_PROVIDER.get().unwrap())(tcx, def)
+}
 
 fn fnv(s: &str) -> u64 {
     let mut h: u64 = 0xcbf29ce484222325;
@@ -890,6 +983,8 @@ fn main() {
         return;
     }
     args.push("--cap-lints=allow".to_string());
+    // keep async bodies in source shape (no generator state machine); only for workspace crates
+    args.push("-Zmir-enable-passes=-KnownPanicsLint".to_string());
     let mut features = vec![];
     let mut is_test = false;
     let mut crate_types = vec![];
